@@ -131,7 +131,7 @@ Lemma step_raise_traceback s i p rs' out last hf want msg :
   let s' := step' s i p in
   (ExcMatches (flags_of rs') last msg ->
      r_end s' = E_running /\ r_failed s' = r_failed s /\ r_executed s' = r_executed s ++ [i] /\
-     r_unmatched s' = r_unmatched s) /\
+     r_unmatched s' = []) /\
   (~ ExcMatches (flags_of rs') last msg -> fails_with s' i F_gotwant).
 Proof.
   intros H O W X s'. destruct (check_exception_spec (flags_of rs') last want msg X) as [[A1 A2] [B1 B2]].
